@@ -165,6 +165,14 @@ Proof. vm_compute. reflexivity. Qed.
 Example strict_layouts : strict_layout_names = ["gdc-1.0.0"].
 Proof. vm_compute. reflexivity. Qed.
 
+(* of the 48 classes of the regenerated class table, 42 are strict; the rest are
+   the abstract bases / bare mixins (never a column class) and the refuted class *)
+Example non_strict_source_classes :
+  map ci_name (filter (fun ci => negb (class_strict_ok (get_rcls (resolve class_table (CSrc (ci_name ci)))))) class_table)
+  = ["MafCustomColumnRecord"; "NullableEmptyStringIsNone"; "NullableEmptyStringIsEmptyList"; "EnumColumn";
+     "SequenceOfValuesColumn"; "SequenceOfNullableYesOrNo"].
+Proof. vm_compute. reflexivity. Qed.
+
 (* the oracle laws are satisfiable: an oracle that knows two floats and one uuid *)
 Definition O_demo : oracles :=
   {| fval := fun t => if str_eqb t (s2l "1") || str_eqb t (s2l "1.0") then Some (s2l "1.0")
